@@ -325,7 +325,10 @@ def mon_sig(sc, r):
 # ------------------------------------------------------------------------------------------------ stop (C12)
 
 STOP_MS = 700
-PHASES = ["run", "timeout", "grace", "delay", "stop-shutdown-cont", "info", "grace-shutdown", "grace-stop-second-shutdown", "grace-twice", "drain", "delay-twice"]
+# (stop-shutdown-cont is drawn eight times: the shutdown signal and SIGCONT both reach nextest while it is stopped, and which of the
+#  two it handles first once continued is its own choice — tokio's StreamMap polls from a random start)
+PHASES = ["run", "timeout", "grace", "delay", "stop-shutdown-cont", "info", "grace-shutdown", "grace-stop-second-shutdown", "grace-twice", "drain", "delay-twice",
+          "stop-shutdown-cont", "stop-shutdown-cont", "stop-shutdown-cont", "stop-shutdown-cont", "stop-shutdown-cont", "stop-shutdown-cont", "stop-shutdown-cont"]
 RETRY_OVERRIDE = """
 [[profile.default.overrides]]
 filter = 'test(/^delay_/)'
@@ -418,6 +421,7 @@ def gen_stop(seed, k):
     sc.signals = sigs
     sc.timeout_s = 12
     sc.meta = {"tests": tests, "family": "stop", "phase": phase, "P": P, "K": K, "G": G, "leak": 1500 if phase == "drain" else 200}
+    if phase == "stop-shutdown-cont": sc.meta["confirm_runs"] = 8
     return sc
 
 
